@@ -554,7 +554,7 @@ def c10(tier):
                                "src": "subgraph.cpp", "defs": defs, "bounds": graph_bounds(defs)}, **kw)
                     obs.append(ob)
                     if sq is not None and n == 2 and len(sq) == 1:
-                        d2 = dict(defs); d2["PRE_REJECT"] = None
+                        d2 = dict(defs); d2["PRE_REJECT"] = 1 - sq[0]        # the rejected request named the vertex that is not in S
                         obs.append(dict(ob, id=ob["id"] + "-after-rejected-request", defs=d2))
     return obs
 
@@ -630,6 +630,9 @@ def dij_ob(prop, und, n, emax, fixs=None, **kw):
 def c12(tier):
     obs = []
     for und in (0, 1):
+        if tier == "probe":
+            obs.append(dij_ob("C12", und, 4, 4, fixs=0, timeout=2400, mem_gb=16))
+            continue
         if tier == "quick":
             obs.append(dij_ob("C12", und, 2, 4 if not und else 3, optional_reach=["intermediate"]))
             for s in range(3):
